@@ -24,6 +24,11 @@ def powerOf (s : Slot) : Power := { upper_bound := s.ub, power := s.p }
 /-- the `distribution` dict of the source for a list of model slots (`key`: the inverter set of the slot's group) -/
 def distOf (key : Entry → List Int) (ss : List Slot) : Dict (List Int) Power := ss.map fun s => (key s.en, powerOf s)
 
+/-- The skip condition, whatever the order / polarity the source writes it in. -/
+theorem greedySkip_iff_tie (rem p : Rat) : greedySkip rem p ↔ (isCloseToZero rem ∨ isCloseToZero p) := by
+  unfold greedySkip
+  by_cases h1 : isCloseToZero rem <;> by_cases h2 : isCloseToZero p <;> simp [h1, h2]
+
 theorem greedyGo_eq_source (key : Entry → List Int) (rem : Rat) (ss : List Slot) :
     mapAccumItems Extracted.DistLoops.greedyDistributeRemainingPower_for1 rem (distOf key ss) =
       ((greedyGo rem ss).2, distOf key (greedyGo rem ss).1) := by
@@ -33,10 +38,12 @@ theorem greedyGo_eq_source (key : Entry → List Int) (rem : Rat) (ss : List Slo
     simp only [distOf, List.map_cons, mapAccumItems, greedyGo, powerOf] at ih ⊢
     simp only [Extracted.DistLoops.greedyDistributeRemainingPower_for1]
     by_cases h : greedySkip rem s.p
-    · have h' : isCloseToZero rem ∨ isCloseToZero s.p := h
+    · have h' : isCloseToZero rem ∨ isCloseToZero s.p := (greedySkip_iff_tie _ _).1 h
       have h'' : ¬ (¬ isCloseToZero rem ∧ ¬ isCloseToZero s.p) := by grind
-      settle [h, h', h'', ih rem, List.map_cons]
-    · have h' : ¬ (isCloseToZero rem ∨ isCloseToZero s.p) := h
+      have h3 : isCloseToZero s.p ∨ isCloseToZero rem := h'.symm
+      have h4 : ¬ (¬ isCloseToZero s.p ∧ ¬ isCloseToZero rem) := by grind
+      settle [h, h', h'', h3, h4, ih rem, List.map_cons]
+    · have h' : ¬ (isCloseToZero rem ∨ isCloseToZero s.p) := fun x => h ((greedySkip_iff_tie _ _).2 x)
       have h1 : ¬ isCloseToZero rem := fun x => h' (Or.inl x)
       have h2 : ¬ isCloseToZero s.p := fun x => h' (Or.inr x)
       settle [h, h1, h2, greedyRemDec, greedyAdd, greedyPowerInc, ih, List.map_cons]
